@@ -11,8 +11,10 @@
     deviation must shrink in proportion: d(s/10) <= 0.25 d(s) + F,
     with the absolute allowance F = 0.05 sd (first-order remainder that belongs to
     the linear model, see DESIGN.md) and the sd ratio |sd_fb / sd_ff - 1| shrinking
-    likewise (+1e-3).  One decade step per configuration, with s drawn from
-    [0.3, 3] s0 (so the ladders span 0.03 .. 3 s0).  Calibration showed why the
+    likewise (+1e-3; steps whose upper rung is saturated, |ratio - 1| > 0.5, are counted
+    but not decided).  One decade step per configuration, with s drawn from
+    [0.7, 1.5] s0 (a thorough run with [0.3, 3] s0 gave 2 false alarms in 500 ladders:
+    one saturated at 3 s0, one at the truncation floor at 0.03 s0).  Calibration showed why the
     ladder cannot be longer: at 10 s0 the disagreement saturates (|sd ratio - 1| ~ 1,
     not proportional), and at s0/100 the scaled errors fall to the size of the
     UNSCALED truncation error of the 12.5 ms strapdown integration (1e-3 m/s), so
@@ -31,13 +33,13 @@ ID = 'C12'
 RULE = ('(a) seeded schedules (uniform / jittered / gapped IMU, time_step 0.1x interval .. 2x span, models none / bias / full, both altitude '
         'modes) with every measurement sample before start, at / after end, empty streams or measurements None / []; (b) seeded '
         'configurations: sine-velocity motion, IMU step 12.5 ms, horizon 20..40 s, time_step 0.25 / 0.5 s, 1..3 sensors on / off the IMU '
-        'grid, bias / scale-misalignment models, both altitude modes, error scales s, s/10 with s in [0.3, 3] s0, s0 = (10 m, 1 m/s, 0.5 / 2 deg, '
+        'grid, bias / scale-misalignment models, both altitude modes, error scales s, s/10 with s in [0.7, 1.5] s0, s0 = (10 m, 1 m/s, 0.5 / 2 deg, '
         '1e-4 rad/s, 0.03 m/s^2); (c) both filters run twice with the same model objects; non-trivial = every case (the tests never compare the '
         'filters with each other or with free inertial integration and run each once); distinct = distinct seeds')
 ASSUMPTIONS = ['F = 0.05 sd is an ABSOLUTE allowance (the one place an absolute number is used): piecewise-constant F over a covariance step, increment '
                'cross-terms ignored by the bias model and the neglected terms of C04 leave a first-order, scale-independent remainder (calibration: <= 0.022 sd over 600 ladders) in '
                'this workload domain (time_step <= 0.5 s, IMU step 12.5 ms, horizon <= 40 s)']
-REQUIRED_OBS = ['zero_data_sd_compared', 'transparent_runs', 'transparent_with_outside_samples', 'transparent_with_default_measurements', 'ladder_runs', 'ladders_decided',
+REQUIRED_OBS = ['sd_steps_decided', 'zero_data_sd_compared', 'transparent_runs', 'transparent_with_outside_samples', 'transparent_with_default_measurements', 'ladder_runs', 'ladders_decided',
                 'rerun_checks', 'scale_misal_ladders', 'two_d_ladders']
 REQUIRED_CLASSES = {'all': ['transparent', 'ladder', 'rerun']}
 F_ALLOW = 0.05
@@ -180,7 +182,7 @@ def ladder_config(seed):
                 e_pos=(rng.uniform(-1, 1, 3)).tolist(), e_vel=(rng.uniform(-1, 1, 3)).tolist(), e_att=(rng.uniform(-1, 1, 3)).tolist(),
                 gb=(rng.uniform(-1, 1, 3) * 1e-4).tolist(), ab=(rng.uniform(-1, 1, 3) * 0.03).tolist(),
                 smat=(rng.uniform(-1, 1, (3, 3)) * 1e-3).tolist(), nseed=int(rng.integers(0, 2 ** 31)),
-                offgrid=bool(rng.integers(0, 2)), dense=bool(rng.random() < 0.4), scale0=float(10 ** rng.uniform(-0.5, 0.5)))
+                offgrid=bool(rng.integers(0, 2)), dense=bool(rng.random() < 0.4), scale0=float(10 ** rng.uniform(-0.15, 0.18)))
 
 
 def ladder_run(cfg, s):
@@ -278,6 +280,12 @@ def run_ladder(case, out, obs):
     rs = [r['sd'] for r in res]
     obs['max_sd_ratio_s_x1000'] = int(1000 * rs[0])
     for a_, b_, lab in ((rs[0], rs[1], 's -> s/10'),):
+        if a_ > 0.5:
+            # saturated: |sd ratio - 1| of order one is outside the small-error regime the property speaks about (seen with
+            # body-velocity-only aiding); the step is counted, not decided
+            obs['sd_steps_saturated_not_decided'] = obs.get('sd_steps_saturated_not_decided', 0) + 1
+            continue
+        obs['sd_steps_decided'] = obs.get('sd_steps_decided', 0) + 1
         if b_ > 0.25 * a_ + 1e-3:
             out.append(vio('sd_disagreement', f'standard deviations: |sd_fb / sd_ff - 1| {a_:.3e} -> {b_:.3e} for {lab}: not shrinking with the error scale (r = {rs}); {desc}',
                            config=cfg))
